@@ -155,6 +155,35 @@ def crash_keys(target, text):
     return res
 
 
+def hang_confirmed(binary, target, path, cwd):
+    """libFuzzer's -timeout is wall-clock and so load-sensitive (other checks share the machine). A timeout
+    only counts when re-running the input alone burns more than 10 s of *CPU* time."""
+    if not path or not os.path.exists(path):
+        return True
+    import resource
+
+    def lim():
+        resource.setrlimit(resource.RLIMIT_CPU, (12, 13))
+    try:
+        pr = subprocess.Popen([binary, "-timeout=300", "-rss_limit_mb=4096", path], stdout=subprocess.DEVNULL, stderr=subprocess.DEVNULL,
+                              env=fenv(target), cwd=cwd, preexec_fn=lim)
+        _, status, ru = os.wait4(pr.pid, 0)
+        pr.returncode = status
+    except OSError:
+        return True
+    return (ru.ru_utime + ru.ru_stime) > 10.0
+
+
+def filter_hangs(binary, target, keys, path, cwd, tr):
+    out = []
+    for k, ex in keys:
+        if k.startswith("hang:") and not hang_confirmed(binary, target, path, cwd):
+            tr.spurious_timeouts += 1
+            continue
+        out.append((k, ex))
+    return out
+
+
 class TargetRun:
     def __init__(self, name):
         self.name = name
@@ -171,6 +200,7 @@ class TargetRun:
         self.incon = []
         self.samples = []
         self.blocked = None
+        self.spurious_timeouts = 0
 
 
 def seed_dirs(target):
@@ -225,6 +255,16 @@ def run_files(binary, target, files, tr, cwd, want_samples=0, origin=None):
             break
         bad = ran[-1].strip() if ran else remaining[0]
         keys = crash_keys(target, text)
+        was_hang = bool(keys) and all(k.startswith("hang:") for k, _ in keys)
+        keys = filter_hangs(binary, target, keys, bad, cwd, tr)
+        if was_hang and not keys:
+            # wall-clock timeout under load only: the seed is fine
+            if bad in remaining:
+                i = remaining.index(bad)
+                good += remaining[:i + 1]
+                remaining = remaining[i + 1:]
+                continue
+            break
         if not keys:
             tr.incon.append("%s: replay of %s exited with status %s without a report: %s" % (target, bad, rc, text[-600:]))
         for k, ex in keys:
@@ -305,6 +345,12 @@ def run_target(binary, target, budget, seed, outroot, max_restarts, watchdog, di
         keys = crash_keys(target, text)
         am = ART_RE.search(text)
         apath = am.group(1) if am else None
+        was_hang = bool(keys) and all(k.startswith("hang:") for k, _ in keys)
+        keys = filter_hangs(binary, target, keys, apath, cwd, tr)
+        if was_hang and not keys:
+            remaining -= max(done, 1)
+            k += 1
+            continue
         if not keys:
             tr.incon.append("%s: fuzz process exited with status %s without a report: %s" % (target, rc, text[-600:]))
             break
@@ -528,6 +574,7 @@ def run(ctx):
         res.add_stat("seed_files_replayed", tr.seeds)
         res.add_stat("seed_files_crashing", tr.seed_crashes)
         res.add_stat("restarts_after_crash", tr.restarts)
+        res.add_stat("wallclock_timeouts_not_reproduced", tr.spurious_timeouts)
         per_target[tr.name] = {"execs": tr.execs, "parsed_ok": tr.parsed, "cov_edges": tr.cov, "features": tr.ft, "corpus_units": tr.corp,
                                "seeds": tr.seeds, "seed_crashes": tr.seed_crashes, "restarts": tr.restarts, "wall_s": round(tr.wall, 1),
                                "exec_per_s": int(tr.execs / tr.wall) if tr.wall > 0 else 0}
